@@ -31,7 +31,9 @@ EXPLANATION = (
     ' '
     'R-C08.7 whether Evolver._save_project_sig writes the Evolution rows may depend only on there being evolutions to write (guards of the bulk_create call mention nothing but the parameter).'
     ' '
-    'R-C08.8 mark-evolution-applied checks and records the same label set (same variable, same reaching definitions, check dominates record).')
+    'R-C08.8 mark-evolution-applied checks and records the same label set (same variable, same reaching definitions, check dominates record).'
+    ' '
+    'R-C08.9 = R-C07.11.')
 NOT_DECIDED = (
     'Exactly-once over histories of runs (needs executing several runs '
     'against one database).')
@@ -651,7 +653,13 @@ def r8_mark_applied_checks_what_it_records(ctx):
                     key='check-and-record-differ')
 
 
+def r9_only_the_executor_ends_transactions(ctx):
+    from .c07 import r11_only_the_executor_ends_transactions
+    r11_only_the_executor_ends_transactions(ctx, rule_id='R-C08.9')
+
+
 def run(ctx):
+    r9_only_the_executor_ends_transactions(ctx)
     r8_mark_applied_checks_what_it_records(ctx)
     r7_recording_unconditional(ctx)
     r6_no_fallback_to_task_sql(ctx)
